@@ -825,16 +825,25 @@ below; the stream created there ends by reset and is given back, `mux_request_le
 regenerated program the slot load, the nil test, the state test and the breaker test all precede the creation of the
 stream and every take; (2) in every state the state test lets a NewStream pass only on a client whose state word is
 `Connected` — a client whose OnGoAway wrote GoAway, or a recycled one (Connecting), is refused with ConnectionFailure;
-(3) the close handler's slot deletion removes a closed client that is still current, so a later slot load cannot find it. -/
+(3) the close handler's slot deletion removes a closed client that is still current, so a later slot load cannot find it;
+(4) mux7: the LAST statement of NewStream (after the pool listens and the three takes) tests the connection: found closed —
+whether it was closed before the state test, between the test and the creation of the stream, or between the creation and
+the listener — the request is refused with ConnectionFailure (and what was taken is given back exactly once:
+`mux_request_ledger_exact_steps` with `place` and `listen` as separate steps).  So the window that remains is precisely:
+a lease is DECIDED by the state test; a go-away observed after that test does not revoke it (the stream is served, the
+drained connection is closed after its last request), a close observed before the end of NewStream does. -/
 theorem mux_no_lease_on_closing_partial :
     (progsOf .mux).nsPre = [.slotIdx, .loadSlot, .chkNil, .chkState, .chkBreaker] ∧
-    (progsOf .mux).nsPost = [.place, .listen, .incHost, .incCluster, .incRes] ∧
+    (progsOf .mux).nsPost = [.place, .listen, .incHost, .incCluster, .incRes, .undoChk] ∧
+    (∀ (pg : Progs) (led : Led) (b : Books) (t : Task) (c : Nat), t.c = some c → (b.client c).netOpen = false →
+      (bookStmt pg led b t .undoChk).2.2 = .undo c ∧ (bookStmt pg led b t .undoChk).1.lastRes = .connFail) ∧
     (∀ (pg : Progs) (led : Led) (b : Books) (t : Task) (c : Nat), t.c = some c →
       (bookStmt pg led b t .chkState).2.2 ≠ .refuse → (b.client c).state = muxConnected) ∧
     (∀ (pg : Progs) (led : Led) (b : Books) (t : Task), t.c = none → (bookStmt pg led b t .chkNil).2.2 = .refuse) ∧
     (∀ (pg : Progs) (led : Led) (b : Books) (t : Task) (c : Nat), t.c = some c → (b.client c).state ≠ muxGoAway →
       b.slots (b.client c).slot = some c → (bookStmt pg led b t .delSlotIfCurrent).1.slots (b.client c).slot = none) := by
-  refine ⟨by decide, by decide, ?_, ?_, ?_⟩
+  refine ⟨by decide, by decide, ?_, ?_, ?_, ?_⟩
+  · intro pg led b t c hc hn; simp [bookStmt, hc, hn]
   · intro pg led b t c hc h
     simp only [bookStmt, hc] at h
     split at h
